@@ -109,7 +109,7 @@ PROPS = {
     "C16": {"level": "model_checking", "models": [], "families": ["pool"]},
     "C17": {"level": "model_checking", "models": ["MC_Pool"], "families": ["pool"]},
     "C19": {"level": "model_checking", "models": ["MC_Math"], "families": ["pool"]},
-    "C05": {"level": "model_checking", "models": ["MC_FarmLife"], "families": ["farm"]},
+    "C05": {"level": "model_checking", "models": ["MC_FarmLife"], "families": ["farm", "pool"]},
     "C06": {"level": "model_checking", "models": ["MC_Farm", "MC_FarmLife"], "families": ["farm"]},
     "C07": {"level": "model_checking", "models": ["MC_Farm"], "families": ["farm"]},
     "C08": {"level": "model_checking", "models": ["MC_FarmLife"], "families": ["farm", "pool"]},
